@@ -60,6 +60,14 @@ def main(argv=None) -> int:
         print(f"no check for {prop}")
         return 2
     ctx = core.Ctx(prop, a.tier, seed)
+    # a check never hangs: past the limit it ends as a machinery failure (exit 2), not as a verdict
+    import signal
+
+    def _too_long(signum, frame):
+        print(f"MACHINERY-ERROR property={prop}: time limit exceeded", file=sys.stderr)
+        os._exit(2)
+    signal.signal(signal.SIGALRM, _too_long)
+    signal.alarm(int(os.environ.get("BV_MAX_S", "3600" if a.tier == "quick" else "28800")))
     try:
         if a.replay:
             data = json.loads(Path(a.replay).read_text())
